@@ -1,39 +1,103 @@
 /-
-  C04 — tokens tile the source; a filter only deletes tokens.
-  INTERIM file: proved here — the raw token stream (sequential scanning from a
-  position) tiles: it starts at that position, is contiguous and every token is
-  non-empty, for every scanner that makes progress.  The refinement theorem
-  `C04_iter` (the model of `Lexer` delivers exactly the kept raw tokens with
-  their spans and parse spans) is being added; until then that clause is carried
-  by the `lexiter` correspondence family + oracle.
+  C04 — The tokens of a lexer tile the source; a filter only deletes tokens.
+
+  English: fix a scanner, a text length and column metrics such that the scanner
+  honours its contract (`ScanOK`: a produced token is non-empty and ends inside
+  the text; at or past the end nothing is produced).  Let `raw` be the stream
+  obtained by scanning sequentially from position zero until the scanner
+  declines (`Spec.rawFrom`; independent of `lexer.rs`).  Then
+  * `raw` starts at zero, is contiguous, and every token is non-empty
+    (`C04_tiles`), and it does not depend on the fuel once the fuel is at least
+    `len + 1` (`C04_fuel`) — the fuel is not a bound on behaviour;
+  * exhausting `iter_with_spans()` on a fresh lexer without filter delivers
+    exactly `raw`; with a filter (installed by `with_filter`, or by `set_filter`)
+    it delivers exactly the kept tokens of `raw`, in order, with the same token
+    values (for a stateful scanner: the same state evolution, rejected tokens
+    included), the same token spans, and `parse_span` after the k-th delivered
+    token = [start of the first delivered token, end of the k-th]
+    (`C04_iter`, `C04_iter_setFilter`; `Spec.delivered`).
+
+  Lean: `Lexer.iterWithSpans` is the model of `lexer.rs` (TephraModel.Lexer);
+  the driver checks on generated cases that the real lexer, the model and
+  `Spec.delivered` agree.  Unbounded: any scanner state type, token type,
+  scanner function, filter table, metrics, length.
 -/
-import TephraModel.Spec.Raw
+import TephraProofs.LexIter
 
 namespace Tephra.Props
 open Tephra Tephra.Spec
 
-theorem C04_raw_tiles {σ τ : Type} (scan : σ → Metrics → Pos → Option (τ × Pos) × σ) (m : Metrics)
-    (hprog : ∀ s p tok adv s', scan s m p = (some (tok, adv), s') → p.byte < adv.byte)
-    (fuel : Nat) (s : σ) (p : Pos) :
-    tiles p (rawFrom scan m fuel s p) = true := by
-  induction fuel generalizing s p with
-  | zero => simp [rawFrom, tiles]
-  | succ n ih =>
-    simp only [rawFrom]
-    split
-    · simp [tiles]
-    · rename_i tok adv s' h
-      simp only [tiles, Bool.and_eq_true, beq_self_eq_true, true_and, decide_eq_true_eq]
-      exact ⟨hprog _ _ _ _ _ h, ih s' adv⟩
+variable {σ τ : Type}
 
-/-- Non-vacuity: a one-character-per-token scanner over a 2-byte text makes progress. -/
-example : ∀ (s : Nat) (p : Pos) (tok : Nat) (adv : Pos) (s' : Nat),
-    (fun (s : Nat) (_ : Metrics) (p : Pos) =>
-      if p.byte < 2 then (some (s, { p with byte := p.byte + 1 }), s + 1) else (none, s)) s ⟨.lf, 4⟩ p
-      = (some (tok, adv), s') → p.byte < adv.byte := by
-  intro s p tok adv s' h
-  by_cases hp : p.byte < 2
-  · simp [hp] at h; obtain ⟨⟨_, rfl⟩, _⟩ := h; simp
-  · simp [hp] at h
+theorem C04_iter (E : LexEnv σ τ) (m : Metrics) (len : Nat) (s0 : σ) (ok : ScanOK E m len)
+    (f : Option Nat) :
+    let raw := Spec.rawFrom E.scan m (len + 1) s0 Pos.zero
+    let keep : τ → Bool := fun t => match f with | none => true | some k => E.passes k t
+    let lx : Lexer σ τ := match f with
+      | none => Lexer.new s0 m len
+      | some k => (Lexer.new s0 m len).withFilter E (some k)
+    (lx.iterWithSpans E).1 = Spec.delivered keep raw := by
+  intro raw keep lx
+  cases f with
+  | none => exact LexIter.iter_new ok s0
+  | some k => exact LexIter.iter_withFilter ok s0 (some k)
+
+/-- The same with `set_filter` on a fresh lexer instead of `with_filter` (any `f`,
+including `set_filter(None)`). -/
+theorem C04_iter_setFilter (E : LexEnv σ τ) (m : Metrics) (len : Nat) (s0 : σ)
+    (ok : ScanOK E m len) (f : Option Nat) :
+    let raw := Spec.rawFrom E.scan m (len + 1) s0 Pos.zero
+    let keep : τ → Bool := fun t => match f with | none => true | some k => E.passes k t
+    ((((Lexer.new s0 m len).setFilter E f).2).iterWithSpans E).1 = Spec.delivered keep raw :=
+  LexIter.iter_setFilter ok s0 f
+
+/-- `with_filter(None)` as well. -/
+theorem C04_iter_withFilter (E : LexEnv σ τ) (m : Metrics) (len : Nat) (s0 : σ)
+    (ok : ScanOK E m len) (f : Option Nat) :
+    let raw := Spec.rawFrom E.scan m (len + 1) s0 Pos.zero
+    let keep : τ → Bool := fun t => match f with | none => true | some k => E.passes k t
+    (((Lexer.new s0 m len).withFilter E f).iterWithSpans E).1 = Spec.delivered keep raw :=
+  LexIter.iter_withFilter ok s0 f
+
+theorem C04_tiles (E : LexEnv σ τ) (m : Metrics) (len : Nat) (s0 : σ) (ok : ScanOK E m len) :
+    Spec.tiles Pos.zero (Spec.rawFrom E.scan m (len + 1) s0 Pos.zero) = true :=
+  LexIter.tiles_rawFrom ok _ _ _
+
+theorem C04_fuel (E : LexEnv σ τ) (m : Metrics) (len : Nat) (s0 : σ) (ok : ScanOK E m len)
+    (fuel : Nat) (h : fuel ≥ len + 1) :
+    Spec.rawFrom E.scan m fuel s0 Pos.zero = Spec.rawFrom E.scan m (len + 1) s0 Pos.zero :=
+  LexIter.rawFrom_fuel ok _ _ _ _ (by omega) (by omega)
+
+/-! Non-vacuity: a stateful scanner over a 7-byte text (tokens of 1, 2, 3 bytes,
+then one more byte; the state counts tokens and is the token value) satisfies the
+contract, and with the filter "odd tokens only" the lexer delivers tokens 1 and 3
+with parse span from the start of token 1. -/
+
+def exScan : Nat → Metrics → Pos → Option (Nat × Pos) × Nat := fun s _ p =>
+  if p.byte < 7 then
+    (some (s, ⟨min 7 (p.byte + s + 1), 0, min 7 (p.byte + s + 1)⟩), s + 1)
+  else (none, s)
+
+def exEnv : LexEnv Nat Nat := ⟨exScan, fun _ t => t % 2 == 1⟩
+
+theorem exEnv_ok (m : Metrics) : ScanOK exEnv m 7 := by
+  constructor
+  · intro s p tok adv s' h
+    simp only [exEnv, exScan] at h
+    split at h
+    · cases h; simp only []; omega
+    · cases h
+  · intro s p h
+    simp only [exEnv, exScan]
+    rw [if_neg (by omega)]
+
+example :
+    (((Lexer.new 0 ⟨.lf, 4⟩ 7).withFilter exEnv (some 0)).iterWithSpans exEnv).1 =
+      [(1, ⟨⟨1, 0, 1⟩, ⟨3, 0, 3⟩⟩, ⟨⟨1, 0, 1⟩, ⟨3, 0, 3⟩⟩),
+       (3, ⟨⟨6, 0, 6⟩, ⟨7, 0, 7⟩⟩, ⟨⟨1, 0, 1⟩, ⟨7, 0, 7⟩⟩)] := by
+  have := C04_iter exEnv ⟨.lf, 4⟩ 7 0 (exEnv_ok _) (some 0)
+  simp only at this
+  rw [this]
+  decide
 
 end Tephra.Props
